@@ -358,7 +358,9 @@ for (const [i, name] of ` + assetNamesJSON(len(assets)) + `) {
   const want = {txt: dec(bytes), bin: Array.from(bytes), b64: bytes.toString("base64")};
   let validUtf8 = true; try { new TextDecoder("utf-8", {fatal: true}).decode(bytes); } catch (e) { validUtf8 = false; }
   $("asset", i, "txt", validUtf8 ? r.txt === want.txt : "n/a (invalid UTF-8 has no defined text)", "bin", JSON.stringify(r.bin) === JSON.stringify(want.bin), "b64", r.b64 === want.b64);
-  let durl = "n/a"; try { const m = /^data:([^,]*),(.*)$/s.exec(r.durl); const isB64 = /;base64$/.test(m[1]); const got = isB64 ? Buffer.from(m[2], "base64") : Buffer.from(decodeURIComponent(m[2]), "utf8"); durl = Buffer.compare(got, bytes) === 0; } catch (e) { durl = "decode-error:" + e.message; }
+  // lenient percent-decoding as the URL standard does it: a "%" that is not followed by two hex digits stays as it is
+  const pctDecode = (t) => { const b = Buffer.from(t, "utf8"), out = []; const hex = (c) => (c >= 48 && c <= 57) || (c >= 65 && c <= 70) || (c >= 97 && c <= 102); for (let i = 0; i < b.length; i++) { if (b[i] === 37 && i + 2 < b.length + 0 && hex(b[i + 1]) && hex(b[i + 2])) { out.push(parseInt(String.fromCharCode(b[i + 1], b[i + 2]), 16)); i += 2; } else out.push(b[i]); } return Buffer.from(out); };
+  let durl = "n/a"; try { const m = /^data:([^,]*),(.*)$/s.exec(r.durl); const isB64 = /;base64$/.test(m[1]); const got = isB64 ? Buffer.from(m[2], "base64") : pctDecode(m[2]); durl = Buffer.compare(got, bytes) === 0; } catch (e) { durl = "decode-error:" + e.message; }
   $("asset", i, "durl", durl);
 }
 `
